@@ -151,11 +151,41 @@ def conc_case(args):
     return {'seed': seed, 'programs': programs, 'preset': preset, 'shared': shared, 'results': out}
 
 
+def exhaustive_small(n_ops):
+    """every sequence of n_ops queue calls over prefixes that extend one another (None, 'a', 'a-5',
+    'a-5-1'), both sides, followed by draining every queue from the front"""
+    import itertools
+    prefixes = [None, 'a', 'a-5']
+    alpha = []
+    for pf in prefixes:
+        alpha.append({'m': 'push', 'prefix': pf, 'side': 'back', 'v': 'x', 'ttl': None, 'tag': None})
+        alpha.append({'m': 'push', 'prefix': pf, 'side': 'front', 'v': 'y', 'ttl': None, 'tag': None})
+        alpha.append({'m': 'pull', 'prefix': pf, 'side': 'front'})
+        alpha.append({'m': 'pull', 'prefix': pf, 'side': 'back'})
+    alpha.append({'m': 'peek', 'prefix': 'a', 'side': 'front'})
+    alpha.append({'m': 'set', 'k': 'a-7', 'v': 'ordinary', 'ttl': None, 'tag': None})
+    hists = []
+    for combo in itertools.product(range(len(alpha)), repeat=n_ops):
+        ops = []
+        for j, i in enumerate(combo):
+            op = dict(alpha[i], now=1000)
+            if op['m'] == 'push':
+                op['v'] = '%s%d' % (op['v'], j)
+            ops.append(op)
+        for pf in prefixes + ['a-5-1']:
+            for _ in range(2):
+                ops.append({'m': 'pull', 'now': 1000, 'prefix': pf, 'side': 'front'})
+        ops.append({'m': 'len', 'now': 1000})
+        hists.append({'cfg': {'mfs': 8, 'policy': 'lrs', 'cull': 10, 'stats': 0, 'proto': 5, 'disk': 'pickle',
+                              'limN': 2 ** 30, 'limD': 1, 'tagidx': 0}, 'ops': ops, 'state_every': 0})
+    return hists
+
+
 def run(tier, seed, rng, known, replay):
     if replay:
         return base.replay_file(replay, 'C10', ('result', 'state'), acceptor)
     n, m = (200, 20) if tier == 'quick' else (3000, 300)
-    hists = [queue_history(rng, rng.choice([20, 50])) for _ in range(n)]
+    hists = exhaustive_small(2 if tier == 'quick' else 3) + [queue_history(rng, rng.choice([20, 50])) for _ in range(n)]
     hists += [queue_history(rng, 250) for _ in range(m)]
     r = base.check_histories('C10', hists, ('result', 'state'), acceptor=acceptor, known=known)
     dist, distinct = base.op_distribution(hists, r['impl_out'])
